@@ -1172,6 +1172,10 @@ struct ProbeFrom<T, U>(PhantomData<(T, U)>);
 trait FallbackFrom { fn is_from(&self) -> bool { false } }
 impl<T, U> FallbackFrom for ProbeFrom<T, U> {}
 impl<U, T: From<U>> ProbeFrom<T, U> { fn is_from(&self) -> bool { true } }
+struct ProbeAsMut<T, U: ?Sized>(PhantomData<T>, PhantomData<U>);
+trait FallbackAsMut { fn is_as_mut(&self) -> bool { false } }
+impl<T, U: ?Sized> FallbackAsMut for ProbeAsMut<T, U> {}
+impl<U: ?Sized, T: AsMut<U>> ProbeAsMut<T, U> { fn is_as_mut(&self) -> bool { true } }
 struct ProbeCopy<T>(PhantomData<T>);
 trait FallbackCopy { fn is_copy(&self) -> bool { false } }
 impl<T> FallbackCopy for ProbeCopy<T> {}
@@ -1284,6 +1288,11 @@ fn main() {
         lines.append('    println!("CTOR|%s: From<Vec<&Mutex>>|false|{}", ProbeFrom::<%s, %s>(PhantomData).is_from());' % (t, t, VR))
         t2 = C + coll + "<Vec<%s>>" % M
         lines.append('    println!("CTOR|%s: Default|true|{}", ProbeDefault::<%s>(PhantomData).is_default());' % (t2, t2))
+    # a sorting collection records its lock list at construction: no structural &mut access to its child
+    for coll, lt in (("BoxedLockCollection", ""), ("RefLockCollection", "'static, ")):
+        t = C + coll + "<%sVec<%s>>" % (lt, M)
+        lines.append('    println!("CTOR|%s: AsMut<Vec<Mutex>>|false|{}", ProbeAsMut::<%s, Vec<%s>>(PhantomData, PhantomData).is_as_mut());' % (t, t, M))
+        lines.append('    println!("CTOR|%s: AsMut<[Mutex]>|false|{}", ProbeAsMut::<%s, [%s]>(PhantomData, PhantomData).is_as_mut());' % (t, t, M))
     # a guard that carries the thread's key must never be Send, whatever the raw lock allows
     for t in ["happylock::mutex::MutexGuard<'static, i32, SendRawMutex>",
               "happylock::rwlock::RwLockReadGuard<'static, i32, SendRawRwLock>",
